@@ -385,6 +385,9 @@ def _copies_copy(ctx):
     r2_operands_encoded(ctx)
 
 
+from ..through_time import make_rule as _mk_tt
+_through_time = _mk_tt("C20")
+
 RULES = [
     ("C20-R1", r1_param_mutators),
     ("C20-R2", r2_private_mutator_call_sites),
@@ -394,4 +397,5 @@ RULES = [
     ("C20-R6", r6_memoised_results),
     ("C20-R7", _compaction_state),
     ("C20-R8", _copies_copy),
+    ("C20-T1", _through_time),
 ]
